@@ -47,6 +47,14 @@ def run(ctx, model_ok):
             t0 = threads[0][0]
             evs += [[t0, c['TRACE_DATA_THREAD_TERMINATE'], 0, [t0, 0, 0, 0]], [t0, c['BSC_getpid'], 1, [0, 0, 0, 0]],
                     [t0, c['BSC_getpid'], 2, [0, 1, 0, 0]]]
+            # a new thread is announced for pid 30; before its name string arrives a sampler record of another thread
+            # re-declares it for pid 20: the name belongs to the pid of the announcement
+            from ..harness.streams import name_words
+            t1 = threads[-1][0] if len(threads) > 1 else 0x778
+            evs += [[t0, c['TRACE_DATA_NEWTHREAD'], 0, [0x777, 30, 0, 0]], [t1, c['PERF_THD_Data'], 0, [20, 0x777, 0x5000, 1]],
+                    [t0, c['TRACE_STRING_NEWTHREAD'], 0, name_words('worker')], [0x777, c['BSC_getpid'], 1, [0, 0, 0, 0]],
+                    [0x777, c['BSC_getpid'], 2, [0, 20, 0, 0]], [t0, c['TRACE_DATA_NEWTHREAD'], 0, [0x779, 30, 0, 0]],
+                    [0x779, c['BSC_getpid'], 1, [0, 0, 0, 0]], [0x779, c['BSC_getpid'], 2, [0, 30, 0, 0]]]
         if s % 2:
             # a sampler window with nested thread data, and bytes that need escaping in the args column
             c = sg.c
